@@ -939,11 +939,15 @@ class SM(Semiring):
         return SM([a * e + b * g, a * f + b * h, c * e + d * g, c * f + d * h], True if (s.nz and o.nz) else None)
 
     def star(s):
+        "(I - M)^{-1} of a 2x2 matrix, the sum of its powers when the spectral radius is below one"
         if s.nz is False:
             return SM.one
-        from .engine import OutOfBounds
-
-        raise OutOfBounds("star of a non-zero matrix weight (the matrix semiring is used on acyclic inputs only)")
+        a, b, c, d = s.score
+        det = (1 - a) * (1 - d) - b * c
+        E.ENG.star_args.append(a)
+        E.ENG.hypothesis(1 - a > 0)
+        E.ENG.hypothesis(det > 0)
+        return SM([(1 - d) / det, b / det, c / det, (1 - a) / det], True)
 
     def _eq(s, o):
         if s is o:
@@ -1004,11 +1008,11 @@ class QM(Semiring):
         return QM([a * e + b * g, a * f + b * h, c * e + d * g, c * f + d * h])
 
     def star(s):
-        if any(s.score):
-            from .engine import OutOfBounds
-
-            raise OutOfBounds("star of a non-zero matrix weight")
-        return QM.one
+        a, b, c, d = s.score
+        det = (1 - a) * (1 - d) - b * c
+        if not (1 - a > 0 and det > 0):
+            raise OverflowError("star of a matrix with spectral radius >= 1")
+        return QM([(1 - d) / det, b / det, c / det, (1 - a) / det])
 
     def __eq__(s, o):
         return isinstance(o, QM) and s.score == o.score
